@@ -151,7 +151,7 @@ func (e *Engine) addContractFile(cf *ContractFile) {
 			e.ghostFields[path+"."+tn] = append(e.ghostFields[path+"."+tn], gf)
 			gf.Owner = pn + "_" + tn
 		} else {
-			e.ghostFields[cf.PkgPath+"."+owner] = append(e.ghostFields[cf.PkgPath+"."+owner], gf)
+			e.ghostFields[gf.PkgPath+"."+owner] = append(e.ghostFields[gf.PkgPath+"."+owner], gf)
 		}
 	}
 }
@@ -265,6 +265,13 @@ func (e *Engine) generate(u *Unit) (res *UnitResult, vcOut *VC) {
 		}
 		if tp := sig.RecvTypeParams(); tp != nil {
 			_ = tp
+		}
+	}
+	vc.entry = st
+	if vc.contract != nil {
+		for _, cb := range vc.contract.Callbacks {
+			vc.callbackVar("ncalls", cb.Name)
+			vc.callbackVar("lasterr", cb.Name)
 		}
 	}
 	vc.entry = st.clone()
@@ -383,6 +390,7 @@ func (vc *VC) prepass() {
 		})
 	}
 	walk(vc.unit.Body, true)
+	vc.escapeAnalysis()
 	// in a closure unit, captured variables that the closure itself assigns are NOT cells here (their
 	// initial value is an arbitrary symbol; effects on the parent are the parent's concern)
 	if vc.unit.Lit != nil {
@@ -529,4 +537,58 @@ func dischargeAll(obls []*Obligation, o solveOpts, workers int, keepDir string) 
 	}
 	close(ch)
 	wg.Wait()
+}
+
+
+// escapeAnalysis: a local variable is non-escaping if it is only ever defined once and used as the
+// receiver of method calls (never passed, stored, captured, compared or reassigned).
+func (vc *VC) escapeAnalysis() {
+	uses := map[*types.Var]int{}
+	okUses := map[*types.Var]int{}
+	defs := map[*types.Var]int{}
+	inClosure := map[*types.Var]bool{}
+	var walk func(n ast.Node, closure bool)
+	walk = func(n ast.Node, closure bool) {
+		ast.Inspect(n, func(m ast.Node) bool {
+			switch x := m.(type) {
+			case *ast.FuncLit:
+				if x != vc.unit.Lit {
+					walk(x.Body, true)
+					return false
+				}
+			case *ast.AssignStmt:
+				for _, l := range x.Lhs {
+					if id, ok := l.(*ast.Ident); ok {
+						if v, ok := vc.info.ObjectOf(id).(*types.Var); ok {
+							defs[v]++
+						}
+					}
+				}
+			case *ast.CallExpr:
+				if sel, ok := x.Fun.(*ast.SelectorExpr); ok {
+					if id, ok := sel.X.(*ast.Ident); ok {
+						if v, ok := vc.info.Uses[id].(*types.Var); ok {
+							if s, ok := vc.info.Selections[sel]; ok && s.Kind() == types.MethodVal {
+								okUses[v]++
+							}
+						}
+					}
+				}
+			case *ast.Ident:
+				if v, ok := vc.info.Uses[x].(*types.Var); ok {
+					uses[v]++
+					if closure {
+						inClosure[v] = true
+					}
+				}
+			}
+			return true
+		})
+	}
+	walk(vc.unit.Body, false)
+	for v, d := range defs {
+		if d == 1 && uses[v] == okUses[v] && !inClosure[v] && !vc.cellVars[v] {
+			vc.nonEscaping[v] = true
+		}
+	}
 }
